@@ -159,6 +159,10 @@ func c19Oracle(cfg c19Cfg, res *sched.Result, o *c19Obs) *explore.Failure {
 		}
 		return fail("overcount", "processed+dropped exceeds the number of Emit calls")
 	}
+	if total <= cfg.Buf && o.dropped != 0 {
+		// dropping is the *overflow* strategy: a buffer that can hold every row ever emitted never overflows
+		return fail("dropped-without-overflow", fmt.Sprintf("%d row(s) counted as dropped although the buffer (%d) can hold all %d rows emitted", o.dropped, cfg.Buf, total))
+	}
 	if cfg.Strategy == "block" && cfg.TimeoutUs == 0 && o.dropped != 0 {
 		return fail("block-dropped", "block strategy without timeout dropped rows")
 	}
@@ -237,7 +241,7 @@ func (c19) Describe(tier string) fw.Description {
 		Level: "model_checking",
 		Rule: "stateless DFS over all schedules (thread choices at sync/atomic/channel points of stream+root packages, early timer firings, select-case choices) " +
 			"with at most `bound` deviations, of closed harnesses: P producers x 2 rows -> real Stream (SELECT id FROM stream) with data buffer 1|2 under drop / block / block+1ms / expand(ceiling 2|3); " +
-			"each execution is one state (DFS node); non-trivial = reached through >=1 deviation from the default schedule; oracle at quiescence: processed+input_dropped==emits, ids distinct, block never drops, cap<=ceiling, per-producer order",
+			"each execution is one state (DFS node); non-trivial = reached through >=1 deviation from the default schedule; oracle at quiescence: processed+input_dropped==emits, ids distinct, block never drops, nothing is dropped while the buffer can hold every row emitted, cap<=ceiling, per-producer order",
 		Bounds: map[string]any{"producers": "1..3", "rows_per_producer": 2, "buffer": "1,2", "deviations": "quick: 2/1/0 for 1/2/3 producers; thorough: 3/2/1 (time-capped)", "forced_switch_cost": 0},
 		Assumptions: []string{
 			"scheduling points only at sync, sync/atomic, channel and timer operations: unsynchronised accesses are invisible here (covered by the separate -race pass)",
